@@ -3,6 +3,7 @@ CONSTANTS NP = 3
           NC = 48
           MaxPrio = 8
           Devs = @DEVS@
+          AllModes = FALSE
           Cfgs = {}
           Msgs = {}
 INVARIANTS TypeOK BlockOnlyIfPresentWantedPermitted HaveOnlyIfPresent DontHaveOnlyIfAbsentAndAsked
